@@ -328,6 +328,12 @@ theorem findPathRec_total (top : UId) : ∀ fuel, RecurTotal σ top fuel (findPa
             rcases List.mem_append.1 hx with hx | hx
             · exact hv.2 x hx
             · simp only [List.mem_singleton] at hx; subst hx; exact htop
+        rw [exec_bind, exec_getThe']
+        simp only
+        by_cases hdir : (directEdge c start stop).isSome = true
+        · simp only [hdir, ↓reduceIte, exec_pure]
+          exact ⟨_, visited ++ [start], c, rfl, hv1, by simp⟩
+        simp only [hdir, Bool.false_eq_true, ↓reduceIte]
         obtain ⟨e, a, b, c1, h1, he, hd1⟩ := reduceDimension_total hg hs ht hd
         obtain ⟨g1, f1, ha, hb, _⟩ := reduceDimension_ok hg hs ht h1
         have w1 := hw.frame hg f1
